@@ -30,14 +30,35 @@ def parser_unit_strings(ix, rep, rule='R-UNITDOM'):
         rep.analysed(f)
         rep.unit(f.module.rel)
         lits = set()
-        dyn = False
-        for st in ast.walk(f.node):
-            if isinstance(st, ast.Assign) and isinstance(st.targets[0], ast.Name) and st.targets[0].id == 'unit':
-                if isinstance(st.value, ast.Constant) and isinstance(st.value.value, str):
-                    lits.add(st.value.value)
-                else:
-                    dyn = True
-        out[meth] = (lits, dyn, f)
+        dyn = [False]
+
+        def values(e, depth=0):
+            # the strings the expression can denote: literals, both arms of a conditional expression, every binding of a local
+            if isinstance(e, ast.Constant) and isinstance(e.value, str):
+                lits.add(e.value)
+            elif isinstance(e, ast.IfExp):
+                values(e.body, depth)
+                values(e.orelse, depth)
+            elif isinstance(e, ast.BoolOp) and isinstance(e.op, ast.Or):
+                for v in e.values:
+                    values(v, depth)
+            elif isinstance(e, ast.Name) and depth < 4:
+                ds = [st.value for st in ast.walk(f.node) if isinstance(st, ast.Assign) and any(isinstance(t, ast.Name) and t.id == e.id for t in st.targets)]
+                if not ds:
+                    dyn[0] = True
+                for d in ds:
+                    values(d, depth + 1)
+            else:
+                dyn[0] = True
+        rets = [r for r in ast.walk(f.node) if isinstance(r, ast.Return) and isinstance(r.value, ast.Tuple) and len(r.value.elts) == 2]
+        if rets:
+            for r in rets:
+                values(r.value.elts[1])
+        else:
+            for st in ast.walk(f.node):
+                if isinstance(st, ast.Assign) and isinstance(st.targets[0], ast.Name) and st.targets[0].id == 'unit':
+                    values(st.value)
+        out[meth] = (lits, dyn[0], f)
     return out
 
 
